@@ -95,8 +95,26 @@ def afterJ (f : VF GQ) (r : M (VF GQ)) : Json :=
   Json.mkObj [("accepted", .bool (match r with | .ok _ => true | .error _ => false)),
     ("state", gndaToJson (forceG (f.after r).data))]
 
+def colJ (c : Col GQ) : Json :=
+  match c with
+  | .dist2 xs => Json.mkObj [("kind", .str "dist2"), ("data", ratsJ xs)]
+  | .num xs => Json.mkObj [("kind", .str "num"), ("data", ratsJ xs)]
+  | .val xs => Json.mkObj [("kind", .str "val"), ("data", listJ gqToJson xs)]
+
+/-- the data frame: columns in order, `[name, {kind, data}]` (the distance column holds squares) -/
+def frameJ (fr : List (String × Col GQ)) : Json :=
+  listJ (fun (p : String × Col GQ) => Json.arr #[.str p.1, colJ p.2]) fr
+
 def c02 (op : String) (j : Json) : Option (R Json) :=
   match op with
+  | "new" => some do
+      let m ← meshOfJson (← fld j "mesh")
+      let nv ← natOfJson (← fld j "nvdim")
+      let s ← specOfJson (← fld j "spec")
+      let vdims ← optStrsOfJson j "vdims"
+      let reserved ← strs j "reserved"
+      pure (resJ (fun (g : VF GQ) => Json.mkObj [("array", gndaToJson (forceG g.data)),
+        ("vdims", optStrsJ g.vdims)]) (VF.new? gqIsZero reserved m nv s vdims))
   | "construct" => some do
       let m ← meshOfJson (← fld j "mesh")
       let nv ← natOfJson (← fld j "nvdim")
@@ -115,6 +133,13 @@ def c02 (op : String) (j : Json) : Option (R Json) :=
       let f ← vfOfJson (← fld j "field")
       let s ← specOfJson (← fld j "spec")
       pure (afterJ f (f.update gqIsZero s))
+  | "history" => some do
+      let f ← vfOfJson (← fld j "field")
+      let ops ← listOf (fun o => do
+        match fldOpt o "set" with
+        | some l => pure (Assign.set (← leafOfJson l))
+        | none => pure (Assign.upd (← specOfJson (← fld o "upd")))) (← fld j "ops")
+      pure (Json.mkObj [("state", gndaToJson (forceG (f.run gqIsZero ops).data))])
   | "region2slices" => some do
       let m ← meshOfJson (← fld j "mesh")
       let r ← regionOfJson (← fld j "region")
@@ -140,7 +165,9 @@ def c02 (op : String) (j : Json) : Option (R Json) :=
         ("iter", if doIter then listJ (fun r => resJ (listJ gqToJson) r) f.iter else .null),
         ("lines", listJ (fun (l : List Rat × List Rat × Nat) =>
           resJ (fun (o : LineOut GQ) => Json.mkObj [("points", listJ ratsJ o.points),
-            ("values", rowsJ o.values), ("r2", ratsJ o.r2)]) (f.line l.1 l.2.1 l.2.2)) lines)])
+            ("values", rowsJ o.values), ("r2", ratsJ o.r2),
+            ("frame", frameJ (lineFrame f.mesh.region.dims (valueColumns f.vdims f.nvdim) f.nvdim o))])
+            (f.line l.1 l.2.1 l.2.2)) lines)])
   | _ => none
 
 end DFV.Drv
